@@ -7,7 +7,7 @@ import (
 func init() {
 	driver.Register(&driver.Engine{
 		ID: "C02", Level: "exploration",
-		Rule: "three hostile workloads in crash-isolated child processes (write-ahead log of the input in flight; Go panics recovered and reported, fatal errors attributed by the parent): (a) source texts <= 64 KiB: adversarial shapes (nesting/chains/huge literals/arity limits up to 60000 repetitions), every token kind truncated at EOF, and byte/token/line mutations of the repository's own test corpus, each under several FileOptions vectors with json/math/time/struct predeclared and a 200000-step budget watched by the step hook; (b) direct calls of every enumerated callable (universe, methods of every pool type, json/math/time members) with 0-4 positional and 0-2 keyword arguments from an edge-case pool (receivers from the same pool); (b2) every operator, augmented assignment, index/slice/element-assignment, unpacking, argument-expansion, comprehension, %-format and literal form (~80 three-parameter functions compiled once) applied to ordered pairs of pool values: every right-operand type for every left operand and form in the quick tier, all pairs in the thorough tier; (b3) boundary numerals (int32/int64/uint64 edges, 20-400 digits) substituted into ~130 statement templates covering every mini-language a built-in parses (format fields, % templates, int/float strings, JSON text, durations and times, escapes, indices, counts); (c) random cyclic value graphs (lists, dicts, tuples, closures, defaults, structs) under str/repr/==/</hash/json.encode/sorted/in/freeze. distinct = distinct (callable, argument type vector, #kwargs) / distinct text / distinct graph program",
+		Rule:        "three hostile workloads in crash-isolated child processes (write-ahead log of the input in flight; Go panics recovered and reported, fatal errors attributed by the parent): (a) source texts <= 64 KiB: adversarial shapes (nesting/chains/huge literals/arity limits up to 60000 repetitions), every token kind truncated at EOF, and byte/token/line mutations of the repository's own test corpus, each under several FileOptions vectors with json/math/time/struct predeclared and a 200000-step budget watched by the step hook; (b) direct calls of every enumerated callable (universe, methods of every pool type, json/math/time members) with 0-4 positional and 0-2 keyword arguments from an edge-case pool (receivers from the same pool); (b2) every operator, augmented assignment, index/slice/element-assignment, unpacking, argument-expansion, comprehension, %-format and literal form (~80 three-parameter functions compiled once) applied to ordered pairs of pool values: every right-operand type for every left operand and form in the quick tier, all pairs in the thorough tier; (b3) boundary numerals (int32/int64/uint64 edges, 20-400 digits) substituted into ~130 statement templates covering every mini-language a built-in parses (format fields, % templates, int/float strings, JSON text, durations and times, escapes, indices, counts); (c) random cyclic value graphs (lists, dicts, tuples, closures, defaults, structs) under str/repr/==/</hash/json.encode/sorted/in/freeze. distinct = distinct (callable, argument type vector, #kwargs) / distinct text / distinct graph program",
 		Assumptions: []string{"out-of-memory fatals and makeslice/growslice panics on operands with Len >= 2^31 are the 'single huge allocation' the property excludes", "calls that do not return within the per-call wall-clock guard are counted and not judged (built-ins are not interruptible)"},
 		Run:         run,
 		Variants: func(tier string) []driver.Variant {
